@@ -41,10 +41,12 @@ Definition ok013 (c : Z * stmt) : bool :=
 Definition carriers (b i : string) (sc d : Z) : list stmt :=
   let m := mem_of DtNone b i sc d in
   [SMnem "MOV" [ident "CX"; m]; SMnem "MOV" [m; ident "DL"]; SMnem "ADD" [ident "ESI"; m];
+   SMnem "MOV" [ident "AX"; m]; SMnem "MOV" [m; ident "AL"];      (* the accumulator must not take the moffs form here *)
    SMnem "CMP" [mem_of DtByte b i sc d; num 5]; SMnem "MOV" [mem_of DtWord b i sc d; num 4660]; SMnem "ADD" [mem_of DtDword b i sc d; num 1]].
 Definition carriers4 (b i : string) (sc d : Z) : list stmt :=
   let m := mem_of DtNone b i sc d in
-  [SMnem "MOV" [ident "CX"; m]; SMnem "MOV" [m; ident "DL"]; SMnem "ADD" [ident "ESI"; m]; SMnem "MOV" [mem_of DtWord b i sc d; num 4660]].
+  [SMnem "MOV" [ident "CX"; m]; SMnem "MOV" [m; ident "DL"]; SMnem "ADD" [ident "ESI"; m]; SMnem "MOV" [mem_of DtWord b i sc d; num 4660];
+   SMnem "MOV" [ident "EAX"; m]; SMnem "MOV" [m; ident "AL"]].
 
 Definition disps16 : list Z := [0; 1; -1; 127; 128; -128; -129; 4660; 32767; -32768].
 Definition disps32 : list Z := [0; 1; 127; 128; -128; -129; 305419896].
